@@ -70,6 +70,13 @@ func init() {
 				cs = append(cs, ev.MkCase("batch", c17Batch{What: "discovery", Count: 60, Seed: seed*17 + int64(k)}))
 			}
 			for k := 0; k < reps; k++ {
+				for at := 1; at <= 9; at++ {
+					for _, kind := range []string{"erase", "replace", "add"} {
+						cs = append(cs, ev.MkCase("sdr", c17SDRHist{Seed: seed*29 + int64(k), At: at, Kind: kind}))
+					}
+				}
+			}
+			for k := 0; k < reps; k++ {
 				for f := 0; f < len(c17Cmds); f++ {
 					cs = append(cs, ev.MkCase("batch", c17Batch{What: "conn", Count: f, Seed: seed + int64(k)*71}))
 				}
@@ -91,6 +98,10 @@ func c17Exec(run *ev.Run, c ev.Case) {
 		var o c17Conn
 		c.Decode(&o)
 		c17ConnPair(run, o)
+	case "sdr":
+		var o c17SDRHist
+		c.Decode(&o)
+		c17SDR(run, o)
 	case "disc":
 		var o c17Disc
 		c.Decode(&o)
@@ -265,6 +276,7 @@ func c17ConnPair(run *ev.Run, o c17Conn) {
 	run1 := func(first bool, gsecond genCmd) (string, bool) {
 		cfg := defaultCfg(rng(o.Seed, "c17cfg"))
 		se := NewScriptEnv(cfg, memtr.Window)
+		se.Strict = true
 		var conn bmc.Connection = se.ST
 		if o.InSession {
 			ctx, cancel := se.LimitCtx(20)
@@ -487,5 +499,82 @@ func c17Discovery(run *ev.Run, o c17Disc) {
 	run.Nontrivial(fmt.Sprintf("disc|%d|%s|%v|%v|%v", o.FailAt, o.FailKind, o.Change, o.NewSession, firstErr != nil))
 	if used != fresh {
 		run.Violation("C17:discovery:result-depends-on-history", fmt.Sprintf("cipher suite discovery after an earlier retrieval (failure %s at request %d: err=%v; records changed: %v; through NewV2Session: %v): used connection %q, fresh connection %q", o.FailKind, o.FailAt, firstErr, o.Change, o.NewSession, used, fresh), cs, nil)
+	}
+}
+
+// c17SDRHist is one SDR retrieval during which the repository changes (and the
+// reservation is cancelled) before the At-th Get SDR: what the call returns must
+// be what a fresh session retrieves from the repository's final state, i.e.
+// nothing read before the change may survive into the result.
+type c17SDRHist struct {
+	Seed int64
+	At   int
+	Kind string // erase | replace | add
+}
+
+func c17SDR(run *ev.Run, o c17SDRHist) {
+	run.Eval(1)
+	cs := ev.MkCase("sdr", o)
+	r := rng(o.Seed, "c17sdr")
+	var recs []refbmc.SDRRecord
+	for i := 0; i < 5; i++ {
+		body, _, _ := genFSR(r, 3, 4+i)
+		recs = append(recs, refbmc.SDRRecord{ID: uint16(1 + i*3), Type: 1, Body: body})
+	}
+	final := append([]refbmc.SDRRecord(nil), recs...)
+	switch o.Kind {
+	case "erase":
+		k := 1 + r.Intn(3)
+		final = append(append([]refbmc.SDRRecord(nil), recs[:k]...), recs[k+1:]...)
+	case "replace":
+		body, _, _ := genFSR(r, 3, 9)
+		final[1+r.Intn(3)] = refbmc.SDRRecord{ID: 0x50, Type: 1, Body: body}
+	case "add":
+		body, _, _ := genFSR(r, 3, 10)
+		final = append(final, refbmc.SDRRecord{ID: 0x60, Type: 1, Body: body})
+	}
+	retrieve := func(repo *refbmc.Repo) (string, bool) {
+		cfg := defaultCfg(rng(o.Seed, "c17sdrcfg"))
+		e := NewEnv(cfg, memtr.Window)
+		e.BMC.Handler = repo.Handle
+		ctx, cancel := bg(20 * time.Second)
+		defer cancel()
+		sess, err := e.OpenSession(ctx, stdSuites()[int(o.Seed)%9])
+		if err != nil {
+			run.Violation("C17:handshake-failed", err.Error(), cs, nil)
+			return "", false
+		}
+		var m bmc.SDRRepository
+		pv, st := safe(func() { m, err = bmc.RetrieveSDRRepository(ctx, sess) })
+		if pv != nil {
+			run.Violation("C17:sdr:panic:"+panicSite(st), fmt.Sprintf("%v", pv), cs, nil)
+			return "", false
+		}
+		var keys []string
+		for k, v := range m {
+			keys = append(keys, fmt.Sprintf("%#x:%s", k, mon.Snapshot(v)))
+		}
+		sort.Strings(keys)
+		return fmt.Sprintf("err=%v %v", err != nil, keys), true
+	}
+	used := refbmc.NewRepo(recs, 70000)
+	injected := false
+	used.BeforeGet = func(nth int, rp *refbmc.Repo) {
+		if nth == o.At && !injected {
+			injected = true
+			rp.ModifyLocked(final, o.Kind == "erase", true)
+		}
+	}
+	a, ok1 := retrieve(used)
+	b, ok2 := retrieve(refbmc.NewRepo(final, 70001))
+	if !ok1 || !ok2 {
+		return
+	}
+	run.Event("sdr-histories", 1)
+	if injected {
+		run.Nontrivial(fmt.Sprintf("sdr|%s|%d", o.Kind, o.At))
+	}
+	if a != b {
+		run.Violation("C17:sdr:result-depends-on-history", fmt.Sprintf("repository changed (%s) before Get SDR %d of the retrieval: the call returned %s; a fresh session retrieves %s from the final state", o.Kind, o.At, a, b), cs, nil)
 	}
 }
